@@ -72,3 +72,30 @@ P.verify(fn(
 ))
 P.bound('differential', 'dyn/C03.py', 'differential', 'random contracting affine systems with alias chains, aliases of constants / exogenous / lagged variables, decorative chains and '
         'trees, initial conditions anywhere; reduction on vs off: 300 (quick) / 6000 (thorough)', 'every series identical (1e-6) with reduction on and off, incl. k = 0')
+
+# ---- MoveDecorative ---------------------------------------------------------------------------------------------
+TOK = 'self.Tokens'
+REFERENCED = 'any(has(%s, s) and any(%s[s][q] == %%s for q in range(0, len(%s[s]))) for s in strings())' % (TOK, TOK, TOK)
+P.verify(fn(
+    'sfc_models.equation_parser.EquationParser.MoveDecorative',
+    args=dict(self=Ref('EquationParser')), returns=INT,
+    requires=[('separate_lists', 'self.Endogenous is not self.Decoration')],
+    loops={0: LoopSpec(header='for (var, old_eqn) in working_list', index='a', ghost={'H0': 'heap_now()'}, modifies=['len.TS_SE', 'el.TS_SE', 'tyof'], invariants=[
+               ('bounds', '0 <= a and a <= len(_it)'),
+               ('working_copy', 'fresh(_it) and _it is not self.Endogenous and _it is not self.Decoration and self.Endogenous is old(self.Endogenous) and self.Decoration is old(self.Decoration)'),
+               ('nothing_lost_or_duplicated', 'len(self.Endogenous) + len(self.Decoration) == old(len(self.Endogenous)) + old(len(self.Decoration)) and '
+                                              'num_found == len(self.Decoration) - old(len(self.Decoration)) and num_found >= 0'),
+               ('earlier_decorations_kept', 'all(same(self.Decoration[j], old(self.Decoration[j])) for j in range(0, old(len(self.Decoration))))'),
+               ('moved_variables_are_referenced_nowhere', 'all(not (%s) for j in range(old(len(self.Decoration)), len(self.Decoration)))' % (REFERENCED % 'self.Decoration[j][0]')),
+               ('only_the_two_lists_written', "heap_unchanged_except('len.TS_SE', 'el.TS_SE', 'tyof')"),
+               ('token_table_untouched', 'dicts_unchanged()')]),
+           1: LoopSpec(header='for other_var in self.Tokens', index='b', modifies=[], invariants=[
+               ('bounds', '0 <= b and b <= len(_it)'),
+               ('not_found_so_far', 'implies(not found, all(not any(%s[_it[m]][q] == var for q in range(0, len(%s[_it[m]]))) for m in range(0, b)))' % (TOK, TOK)),
+               ('found_means_referenced', 'implies(found, %s)' % (REFERENCED % 'var'))])},
+    ensures=[('nothing_lost_or_duplicated', 'len(self.Endogenous) + len(self.Decoration) == old(len(self.Endogenous)) + old(len(self.Decoration))'),
+             ('returns_the_number_moved', 'result == len(self.Decoration) - old(len(self.Decoration)) and result >= 0'),
+             ('earlier_decorations_kept', 'all(same(self.Decoration[j], old(self.Decoration[j])) for j in range(0, old(len(self.Decoration))))'),
+             ('moved_variables_are_referenced_nowhere', 'all(not (%s) for j in range(old(len(self.Decoration)), len(self.Decoration)))' % (REFERENCED % 'self.Decoration[j][0]'))],
+    raises=[RaisesSpec('ValueError', when='True'), RaisesSpec('KeyError', when='True')],
+))
